@@ -154,7 +154,8 @@ def run(ck: Check):
                   "wrapper_kind_decides_the_lookup": "C19:differs-from-explicit-lookup",
                   "injected_call_in_a_closed_context_is_the_explicit_call": "C19:differs-from-explicit-lookup",
                   "annotations_mean_what_they_say": "C19:differs-from-explicit-lookup",
-                  "injected_lookups_happen_in_signature_order": "C19:differs-from-explicit-lookup"})
+                  "injected_lookups_happen_in_signature_order": "C19:differs-from-explicit-lookup",
+                  "injected_coroutine_in_a_component_waits_like_the_explicit_lookup": "C19:differs-from-explicit-lookup"})
     sigs, n_fail = {}, 0
     for r in results:
         for sig, what in oracle(r):
